@@ -163,6 +163,27 @@ fn check_tape(tape: &[u8], gates: &Gates, stats: &mut Stats, counting: bool) -> 
             }
         }
     }
+    // a file larger than any read / decode block (4 KiB ... 64 KiB and beyond), with two-byte
+    // characters so dense that every block boundary of the UTF-8 form has an even chance to fall
+    // inside one; a few ASCII bytes in front shift the phase
+    if choice.ratio(1, 12) && gates.want("FILE_LARGER_THAN_A_BLOCK") {
+        let kib = *choice.pick(&[5usize, 9, 17, 33, 66, 70, 130, 200]);
+        let mut filler = "x".repeat(choice.below(4));
+        filler.insert_str(0, "(* ");
+        filler.push_str(" *)\n");
+        let c = *choice.pick(REPERTOIRE_1252);
+        let line = format!("(* {} *)\n", c.to_string().repeat(30 + choice.below(9)));
+        while filler.len() < kib * 1024 {
+            filler.push_str(&line);
+        }
+        if crlf {
+            filler = filler.replace('\n', "\r\n");
+        }
+        text = if choice.flag() { format!("{}{}", filler, text) } else { format!("{}{}", text, filler) };
+        if counting {
+            stats.class("text.larger-than-a-block");
+        }
+    }
     let mut reference: Option<(usize, Obs)> = None;
     let mut skipped_1252 = false;
     for which in 0..5 {
